@@ -1027,6 +1027,13 @@ func c17Judge(r *ev.Run, m *dyn.Model, start, final *ref.DB, hist [][]*c17op, mo
 			r.Violation("C17/failed-transaction-notified/"+op.Kind, fmt.Sprintf("%s was answered with error %q but the monitors saw it", op.brief(), op.TxnErr), witness(map[string]interface{}{"order": order}))
 		}
 	}
+	for _, row := range final.T["Log"] {
+		if d, ok := row["id"]; ok && len(d.K) == 1 {
+			if op := byLog[d.K[0].S]; op != nil && op.TxnErr != "" {
+				r.Violation("C17/failed-transaction-left-rows/"+op.Kind, fmt.Sprintf("%s was answered with error %q but its Log row is in the database", op.brief(), op.TxnErr), witness(map[string]interface{}{"order": order}))
+			}
+		}
+	}
 	for id, op := range byLog {
 		if _, ok := pos[id]; !ok && op.TxnErr == "" {
 			r.Violation("C17/acknowledged-transaction-not-notified/"+op.Kind, fmt.Sprintf("%s was acknowledged but no monitor was notified of it", op.brief()), witness(map[string]interface{}{"order": order}))
